@@ -1,9 +1,366 @@
-(* Plugin family "secrets": Gallina models of bandit plugins; definitions only (proofs go to Proofs/). *)
+(* Plugin family "secrets": Gallina models of bandit plugins; definitions only (proofs go to Proofs/).
+     B103 set_bad_file_permissions      (general_bad_file_permissions.py, Call)
+     B104 hardcoded_bind_all_interfaces (general_bind_all_interfaces.py, Str)
+     B105 hardcoded_password_string     (general_hardcoded_password.py, Str)
+     B106 hardcoded_password_funcarg    (general_hardcoded_password.py, Call)
+     B107 hardcoded_password_default    (general_hardcoded_password.py, FunctionDef)
+     B108 hardcoded_tmp_directory       (general_hardcoded_tmp.py, Str, takes config) *)
 From Coq Require Import List NArith ZArith Bool String.
 From Bandit Require Import Base.PyStr Ast.Node Engine.Types Engine.Resolve Engine.Context Engine.Linerange
-     Engine.Scan Regex.Regex.
+     Engine.Scan Regex.Regex Gen.Regexes.
 Import ListNotations.
 Local Open Scope string_scope.
 Local Open Scope list_scope.
 
-Definition secrets_plugins : list plugin := [].
+(* ------------------------------------------------------------------------------------------ *)
+(* rendering helpers: str() of the values that can reach a message                             *)
+
+Definition hex_digit (n : N) : N := if (n <? 10)%N then (48 + n)%N else (87 + n)%N.
+
+(* repr(bytes) == str(bytes) *)
+Definition bytes_repr_char (q c : N) : pstr :=
+  if (c =? q)%N || (c =? 92)%N then [92; c]%N
+  else if (c =? 9)%N then [92; 116]%N
+  else if (c =? 10)%N then [92; 110]%N
+  else if (c =? 13)%N then [92; 114]%N
+  else if (c <? 32)%N || (127 <=? c)%N then [92; 120; hex_digit (c / 16); hex_digit (c mod 16)]%N
+  else [c].
+Definition bytes_quote (b : list N) : N :=
+  if existsb (N.eqb 39%N) b && negb (existsb (N.eqb 34%N) b) then 34%N else 39%N.
+Definition bytes_repr (b : list N) : pstr :=
+  let q := bytes_quote b in
+  [98%N; q] ++ flat_map (bytes_repr_char q) b ++ [q].
+
+(* str(v) for a Constant's value (what an f-string / %s renders) *)
+Definition const_str (k : const) : pstr :=
+  match k with
+  | CNone => s2p "None"
+  | CBool true => s2p "True"
+  | CBool false => s2p "False"
+  | CInt z => str_of_Z z
+  | CFloat r _ => r
+  | CComplex r _ => r
+  | CStr s => s
+  | CBytes b => bytes_repr b
+  | CEllipsis => s2p "Ellipsis"
+  end.
+
+(* marker for a value whose str() embeds repr of Python containers / AST objects *)
+Definition unrendered_marker : pstr := s2p "<UNRENDERED-CONTAINER>".
+
+(* '%s' % v for a non-None value returned by Context._get_literal_value *)
+Definition pyval_str (v : pyval) : pstr :=
+  match v with
+  | PNone => s2p "None"
+  | PInt z => str_of_Z z
+  | PFloat r _ => r
+  | PComplex r _ => r
+  | PStr s => s
+  | PBytes b => bytes_repr b
+  | PList _ | PTuple _ | PSet _ | PDict _ => unrendered_marker
+  end.
+
+(* ------------------------------------------------------------------------------------------ *)
+(* B105 / B106 / B107                                                                          *)
+
+(* RE_CANDIDATES.search(s) is not None *)
+Definition is_candidate (s : pstr) : bool := re_search re_candidates s.
+
+Definition cwe_hard_coded_password : Z := 259%Z.
+
+Definition pw_text (value : pstr) : pstr :=
+  s2p "Possible hardcoded password: '" ++ value ++ s2p "'".
+
+(* _report(value) *)
+Definition pw_report (value : pstr) : rissue :=
+  RIssue LOW MEDIUM cwe_hard_coded_password (pw_text value) None None None None.
+
+(* f"{node.s}" : node.s is the deprecated alias of Constant.value; other classes have no .s *)
+Definition node_s_text (n : node) : res pstr :=
+  match const_of n with
+  | Some k => Ok (const_str k)
+  | None => Raise AttributeError
+  end.
+
+(* RE_CANDIDATES.search(node.s): a str pattern applied to a non-str raises TypeError *)
+Definition node_s_search (n : node) : res bool :=
+  match const_of n with
+  | Some (CStr s) => Ok (is_candidate s)
+  | Some _ => Raise TypeError
+  | None => Raise AttributeError
+  end.
+
+(* one iteration of the loop over Assign.targets: does this target make the check return? *)
+Definition targ_matches (t : node) : bool :=
+  (is_cls "Name" t && is_candidate (name_id t))
+  || (is_cls "Attribute" t && is_candidate (attr_of t)).
+
+(* isinstance(parent, ast.Assign) branch *)
+Definition pw_assign_branch (node parent : node) : res (option rissue) :=
+  if existsb targ_matches (field_list "targets" parent) then
+    do s <- node_s_text node;; Ok (Some (pw_report s))
+  else Ok None.
+
+(* the common tail of the Subscript / Index branches:
+   "if isinstance(assign, ast.Assign) and isinstance(assign.value, ast.Str): return _report(assign.value.s)" *)
+Definition pw_assigned_value (assign : node) : option rissue :=
+  if is_cls "Assign" assign then
+    match str_of (field "value" assign) with
+    | Some v => Some (pw_report v)
+    | None => None
+    end
+  else None.
+
+(* x._bandit_parent for the k-th ancestor; a missing ancestor is an AttributeError *)
+Definition ancestor (k : nat) (c : ctx) : res node :=
+  match nth_error (c_parents c) k with
+  | Some (p, _) => Ok p
+  | None => Raise AttributeError
+  end.
+
+Definition pw_subscript_branch (k : nat) (c : ctx) : res (option rissue) :=
+  do assign <- ancestor k c;; Ok (pw_assigned_value assign).
+
+(* isinstance(parent, ast.Compare) branch *)
+Definition pw_compare_first (comp : node) : res (option rissue) :=
+  match field_list "comparators" comp with
+  | c0 :: _ => match str_of c0 with
+               | Some s => Ok (Some (pw_report s))
+               | None => Ok None
+               end
+  | [] => Raise IndexError
+  end.
+
+Definition pw_compare_branch (comp : node) : res (option rissue) :=
+  let left := field "left" comp in
+  if is_cls "Name" left then
+    if is_candidate (name_id left) then pw_compare_first comp else Ok None
+  else if is_cls "Attribute" left then
+    if is_candidate (attr_of left) then pw_compare_first comp else Ok None
+  else Ok None.
+
+(* B105 hardcoded_password_string *)
+Definition hardcoded_password_string (_ : jv) (c : ctx) : res (option rissue) :=
+  let node := c_node c in
+  do parent <- ancestor 0 c;;
+  if is_cls "Assign" parent then pw_assign_branch node parent
+  else
+    (* elif isinstance(parent, ast.Subscript) and RE_CANDIDATES.search(node.s) *)
+    do sub_hit <- (if is_cls "Subscript" parent then node_s_search node else Ok false);;
+    if sub_hit then pw_subscript_branch 1 c
+    else
+      (* elif isinstance(parent, ast.Index) and RE_CANDIDATES.search(node.s): no CPython >= 3.9 tree
+         contains an Index instance, so py2node never produces this class *)
+      do idx_hit <- (if is_cls "Index" parent then node_s_search node else Ok false);;
+      if idx_hit then pw_subscript_branch 2 c
+      else if is_cls "Compare" parent then pw_compare_branch parent
+      else Ok None.
+
+(* B106 hardcoded_password_funcarg: the loop over context.node.keywords *)
+Fixpoint funcarg_scan (kws : list node) : res (option rissue) :=
+  match kws with
+  | [] => Ok None
+  | kw :: t =>
+      match str_of (field "value" kw) with
+      | Some s =>
+          (* RE_CANDIDATES.search(kw.arg): kw.arg is None for **mapping *)
+          match field "arg" kw with
+          | NId a => if is_candidate a then Ok (Some (pw_report s)) else funcarg_scan t
+          | _ => Raise TypeError
+          end
+      | None => funcarg_scan t
+      end
+  end.
+
+Definition hardcoded_password_funcarg (_ : jv) (c : ctx) : res (option rissue) :=
+  match field_opt "keywords" (c_node c) with
+  | Some kws => funcarg_scan (items kws)
+  | None => Raise AttributeError
+  end.
+
+(* B107: defs = [None] * (len(args) - len(defaults)); defs.extend(defaults)
+   (a negative count gives the empty list = truncated subtraction) *)
+Definition pad_defaults (args defaults : list node) : list (option node) :=
+  repeat None (List.length args - List.length defaults) ++ map Some defaults.
+
+Definition is_none_constant (v : node) : bool :=
+  match const_of v with Some CNone => true | _ => false end.
+
+Fixpoint default_scan (l : list (node * option node)) : res (option rissue) :=
+  match l with
+  | [] => Ok None
+  | (key, val) :: t =>
+      if is_cls "Name" key || is_cls "arg" key then
+        match val with
+        | None => default_scan t
+        | Some v =>
+            if is_none_constant v then default_scan t
+            else
+              match str_of v with
+              | Some s =>
+                  match field_opt "arg" key with
+                  | Some (NId a) => if is_candidate a then Ok (Some (pw_report s)) else default_scan t
+                  | Some _ => Raise TypeError
+                  | None => Raise AttributeError
+                  end
+              | None => default_scan t
+              end
+        end
+      else default_scan t
+  end.
+
+Definition hardcoded_password_default (_ : jv) (c : ctx) : res (option rissue) :=
+  match field_opt "args" (c_node c) with
+  | Some a =>
+      let args := field_list "args" a in
+      let defaults := field_list "defaults" a in
+      default_scan (combine args (pad_defaults args defaults))
+  | None => Raise AttributeError
+  end.
+
+(* ------------------------------------------------------------------------------------------ *)
+(* B108 hardcoded_tmp_directory                                                                *)
+
+Definition key_tmp_dirs : pstr := s2p "tmp_dirs".
+Definition default_tmp_dirs : jv :=
+  JList [JStr (s2p "/tmp"); JStr (s2p "/var/tmp"); JStr (s2p "/dev/shm")].
+
+Definition jv_is_str (s : pstr) (j : jv) : bool :=
+  match j with JStr x => pstr_eqb x s | _ => false end.
+
+(* if config is not None and "tmp_dirs" in config: tmp_dirs = config["tmp_dirs"] else: the default.
+   `in` is key membership on a dict, element membership on a list, substring on a str and a
+   TypeError on an int/bool; indexing a list/str with a str key is a TypeError *)
+Definition tmp_dirs_of (cfg : jv) : res jv :=
+  match cfg with
+  | JNull => Ok default_tmp_dirs
+  | JDict kv => match assoc key_tmp_dirs kv with
+                | Some v => Ok v
+                | None => Ok default_tmp_dirs
+                end
+  | JList l => if existsb (jv_is_str key_tmp_dirs) l then Raise TypeError else Ok default_tmp_dirs
+  | JStr s => if contains s key_tmp_dirs then Raise TypeError else Ok default_tmp_dirs
+  | JInt _ | JBool _ => Raise TypeError
+  end.
+
+(* iter(tmp_dirs) *)
+Definition iter_jv (j : jv) : res (list jv) :=
+  match j with
+  | JList l => Ok l
+  | JStr s => Ok (map (fun ch => JStr [ch]) s)
+  | JDict kv => Ok (map (fun p => JStr (fst p)) kv)
+  | JNull | JInt _ | JBool _ => Raise TypeError
+  end.
+
+(* any(context.string_val.startswith(s) for s in tmp_dirs) *)
+Fixpoint any_startswith (sv : option pstr) (l : list jv) : res bool :=
+  match l with
+  | [] => Ok false
+  | x :: t =>
+      match sv with
+      | None => Raise AttributeError
+      | Some s =>
+          match x with
+          | JStr p => if startswith s p then Ok true else any_startswith sv t
+          | _ => Raise TypeError
+          end
+      end
+  end.
+
+Definition cwe_insecure_temp_file : Z := 377%Z.
+Definition tmp_issue : rissue :=
+  RIssue MEDIUM MEDIUM cwe_insecure_temp_file (s2p "Probable insecure usage of temp file/directory.")
+         None None None None.
+
+Definition hardcoded_tmp_directory (cfg : jv) (c : ctx) : res (option rissue) :=
+  do dirs <- tmp_dirs_of cfg;;
+  do l <- iter_jv dirs;;
+  do hit <- any_startswith (c_str c) l;;
+  if hit then Ok (Some tmp_issue) else Ok None.
+
+(* ------------------------------------------------------------------------------------------ *)
+(* B104 hardcoded_bind_all_interfaces                                                          *)
+
+Definition cwe_multiple_binds : Z := 605%Z.
+Definition bind_all_issue : rissue :=
+  RIssue MEDIUM MEDIUM cwe_multiple_binds (s2p "Possible binding to all interfaces.") None None None None.
+
+Definition all_interfaces : pstr := s2p "0.0.0.0".
+
+Definition hardcoded_bind_all_interfaces (_ : jv) (c : ctx) : res (option rissue) :=
+  match c_str c with
+  | Some s => if pstr_eqb s all_interfaces then Ok (Some bind_all_issue) else Ok None
+  | None => Ok None
+  end.
+
+(* ------------------------------------------------------------------------------------------ *)
+(* B103 set_bad_file_permissions                                                               *)
+
+Local Open Scope Z_scope.
+Definition S_IWOTH : Z := 2.    (* 0o002 *)
+Definition S_IWGRP : Z := 16.   (* 0o020 *)
+Definition S_IXGRP : Z := 8.    (* 0o010 *)
+Definition S_IXOTH : Z := 1.    (* 0o001 *)
+
+Definition truthy_Z (z : Z) : bool := negb (z =? 0).
+
+(* _stat_is_dangerous(mode), as a truth value *)
+Definition stat_is_dangerous (mode : Z) : bool :=
+  truthy_Z (Z.land mode S_IWOTH) || truthy_Z (Z.land mode S_IWGRP)
+  || truthy_Z (Z.land mode S_IXGRP) || truthy_Z (Z.land mode S_IXOTH).
+
+Definition chmod_severity (mode : Z) : rank :=
+  if truthy_Z (Z.land mode S_IWOTH) then HIGH else MEDIUM.
+
+Definition cwe_incorrect_permission_assignment : Z := 732.
+
+Definition chmod_text (mode : Z) (filename : pstr) : pstr :=
+  (s2p "Chmod setting a permissive mask " ++ oct_of_Z mode ++ s2p " on file (" ++ filename ++ s2p ").")%list.
+
+(* filename = context.get_call_arg_at_position(0); if filename is None: filename = "NOT PARSED";
+   then '%s' % filename *)
+Definition chmod_filename (c : ctx) : res pstr :=
+  do v <- get_call_arg_at_position c 0;;
+  match v with
+  | PNone => Ok (s2p "NOT PARSED")
+  | _ => Ok (pyval_str v)
+  end.
+
+Definition chmod_issue (mode : Z) (filename : pstr) : rissue :=
+  RIssue (chmod_severity mode) HIGH cwe_incorrect_permission_assignment (chmod_text mode filename)
+         None None None None.
+
+(* the body under "if context.call_args_count == 2" *)
+Definition chmod_check_mode (c : ctx) : res (option rissue) :=
+  do mode <- get_call_arg_at_position c 1;;
+  match mode with
+  | PInt m =>
+      if stat_is_dangerous m then
+        do fn <- chmod_filename c;; Ok (Some (chmod_issue m fn))
+      else Ok None
+  | _ => Ok None
+  end.
+
+Definition chmod_name : pstr := s2p "chmod".
+
+Definition set_bad_file_permissions (_ : jv) (c : ctx) : res (option rissue) :=
+  match c_name c with
+  | None => Raise TypeError                      (* "chmod" in None *)
+  | Some nm =>
+      if contains nm chmod_name then
+        match call_args_count c with
+        | Some 2%nat => chmod_check_mode c
+        | _ => Ok None
+        end
+      else Ok None
+  end.
+
+(* ------------------------------------------------------------------------------------------ *)
+
+Definition secrets_plugins : list plugin :=
+  [ Plugin (s2p "set_bad_file_permissions") set_bad_file_permissions;
+    Plugin (s2p "hardcoded_bind_all_interfaces") hardcoded_bind_all_interfaces;
+    Plugin (s2p "hardcoded_password_string") hardcoded_password_string;
+    Plugin (s2p "hardcoded_password_funcarg") hardcoded_password_funcarg;
+    Plugin (s2p "hardcoded_password_default") hardcoded_password_default;
+    Plugin (s2p "hardcoded_tmp_directory") hardcoded_tmp_directory ].
